@@ -37,7 +37,7 @@ def cases(tier, seed):
             out.append({"what": "moved", "mesh": mesh, "frame": fr})
         for shape in ("Cylinder", "Frustum", "Elbow"):
             out.append({"what": "round", "shape": shape, "frame": fr})
-    for hexa in range(6):
+    for hexa in range(8):
         out.append({"what": "reorient_lattice", "hex": hexa})
     for hexa in range(6):
         for view in range(len(VIEWS)):
@@ -252,6 +252,15 @@ def hexahedra():
     out.append(tp)
     for k in range(3):
         out.append(cube * [1.2, 1.0, 0.9] + np.array([0.08 * jitter_vec(9 * k + i) for i in range(8)]))
+    # warped sides: the top face twisted by 20 degrees about the vertical through its centre (still convex)
+    tw = cube.copy()
+    a = math.radians(20)
+    for i in range(4, 8):
+        x, y = tw[i, 0] - 0.5, tw[i, 1] - 0.5
+        tw[i, 0], tw[i, 1] = 0.5 + x * math.cos(a) - y * math.sin(a), 0.5 + x * math.sin(a) + y * math.cos(a)
+    out.append(tw)
+    # planar sides, strongly tapered and skewed: 2 x 2 base, 0.8 x 0.8 top shifted sideways
+    out.append(np.array([[-1, -1, 0], [1, -1, 0], [1, 1, 0], [-1, 1, 0], [0.1, 0.1, 1], [0.9, 0.1, 1], [0.9, 0.9, 1], [0.1, 0.9, 1]], float))
     return out
 
 
@@ -380,6 +389,12 @@ def run_reorient_lattice(case):
                     ok, worst = bm.is_right_handed(Q)
                     if not ok:
                         violations.append({"clause": "reorient-not-right-handed", "coords": coords, "detail": f"smallest triple product {worst}"})
+                        continue
+                    # the same block: every side of the result is a side of the block that was given
+                    given_sides = {frozenset(map(tuple, np.round(pts[list(cs)], 9))) for cs in bm.FACES.values()}
+                    new_sides = {frozenset(map(tuple, np.round(Q[list(cs)], 9))) for cs in bm.FACES.values()}
+                    if new_sides != given_sides:
+                        violations.append({"clause": "reorient-not-the-same-block", "coords": coords, "detail": f"{len(new_sides - given_sides)} of the six sides of the result are not sides of the given block (its edges join other corners)"})
                         continue
                     if clear:
                         # which original side ended up as front / top
